@@ -1,5 +1,61 @@
+"""C05 extras: whatever a controller call left behind is emitted as a valid command."""
+from symex.run import Harness
+
+from . import common as C
+
 VERSIONS = None
 
 
+def after_controller_call(versions):
+    def fn(w):
+        from mysensors.message import Message
+        from verifspec import serial_api as S
+        from . import stepref
+        version = w.pick(versions, "version")
+        shape = w.pick([["sleep"], ["sleep_old"], ["awake1"]], "shape")
+        env = C.make_env(w)
+        with env.installed():
+            g = C.make_gateway(w, version)
+            ids = C.gen_network(w, g, shape)
+            nid = ids[0]
+            sensor = g.gw.sensors[nid]
+            cid = w.pick(list(sensor.children.keys()), "child")
+            vt = w.fresh_int("arg.value_type")
+            value = C.wire_payload(w, "arg.value", 2)
+            w.info = {"version": version, "shape": shape, "call": [nid, cid, vt, value]}
+            try:
+                w.call(g.gw.set_child_value, nid, cid, vt, value)
+            except Exception:
+                w.goal("refused")
+                return
+            w.goal("accepted")
+            try:
+                C.drain(w, g)
+                # the node asks for the value, then announces a wake-up
+                C.step_line(w, g, C.structured_line(w, [nid, cid, 2, 0, vt], ""))
+                C.step_line(w, g, C.wakeup_line(w, version, nid))
+            except Exception as exc:
+                w.escaped(exc, "pump raised after a controller call")
+            for e in C.emissions(g):
+                C.check_canonical(w, e, "command emitted after set_child_value")
+                try:
+                    em = w.new(Message, e)
+                    w.call(em.validate, version)
+                except Exception:
+                    w.fail(f"command emitted after set_child_value is not valid for version "
+                           f"{version}")
+                ok = w.call(S.accepts, version, em.node_id, em.child_id, em.type, em.ack,
+                            em.sub_type, em.payload, stepref.version_stub)
+                w.check(ok, "command emitted after set_child_value is not valid per the serial API")
+                w.check(w.eq(em.node_id, nid), "command addressed to another node")
+    return fn
+
+
 def harnesses(tier):
-    return []
+    versions = ["2.0", "2.1", "2.2"] if tier == "quick" else C.VERSIONS
+    return [Harness("after-controller-call", after_controller_call(versions),
+                    {"call": "set_child_value(node, child, symbolic type, wire-carriable value)",
+                     "then": "value request + wake-up announcement",
+                     "shapes": [["sleep"], ["sleep_old"], ["awake1"]]},
+                    goals=["accepted", "refused"],
+                    doc="everything emitted after a controller call is a valid command")]
